@@ -188,7 +188,7 @@ type hostile struct {
 	class string
 }
 
-// hostileNames returns n names: a fixed grammar list (always complete) followed by seeded combinations of its atoms.
+// hostileNames returns the fixed grammar list (always complete) followed by n seeded combinations of its atoms.
 // keyDir is the key directory, decoys are key files outside it (the names that would reach them are generated), existing are names of keys inside it.
 func hostileNames(rnd *mrand.Rand, n int, keyDir string, decoys []*decoy, existing []string) []hostile {
 	var out []hostile
@@ -259,7 +259,7 @@ func hostileNames(rnd *mrand.Rand, n int, keyDir string, decoys []*decoy, existi
 	for _, e := range existing {
 		atoms = append(atoms, e)
 	}
-	for len(out) < n {
+	for i := 0; i < n; i++ {
 		k := 2 + rnd.Intn(6)
 		var sb strings.Builder
 		for j := 0; j < k; j++ {
@@ -267,10 +267,7 @@ func hostileNames(rnd *mrand.Rand, n int, keyDir string, decoys []*decoy, existi
 		}
 		add("generated", sb.String())
 	}
-	if n < len(out) && n >= fixed {
-		out = out[:n]
-	}
-	// (when n is smaller than the fixed list the whole fixed list is still used: it is the grammar)
+	_ = fixed
 	return out
 }
 
